@@ -92,7 +92,7 @@ def gen_coll_case(rng, name, *, shapes=None, probes=False, effective=False, allo
     for k in range(rng.choice([1, 2, 3])):
         sh = rng.choice(names)
         su = nu()
-        c.cscripts[su] = gen_cscript(rng, sh, start, end, effective=effective, allow_invalidate=allow_invalidate, big=big)
+        c.cscripts[su] = gen_cscript(rng, sh, start, end, effective=effective, allow_invalidate=allow_invalidate and sh == "ts", big=big)
         st.append(S(f"c{k}", "csrc", shape=sh, uid=su))
         entry = {"uid": su, "shape": sh, "mirrors": [], "probes": [], "copies": []}
         if probes:
